@@ -695,12 +695,60 @@ def run(report, tier):
     run_buffer(report, b)
     run_printbuffer(report, b)
     run_ring(report, b["ring_depth"])
+    run_long(report)
     report.assume("serials are fed at most once per epoch and, after PrintBuffer.flush(), only serials >= waiting_for "
                   "(duplicates and late serials are documented as overwritten / not documented, and are not judged)")
     report.assume("a drain is a complete iteration of the buffer; abandoning the generator half-way is not judged")
 
 
+def run_long(report):
+    """a few long arrival orders (the property holds for every n): in order, reversed (one cascade releases
+    everything), and blocks of three reversed -- serial numbers are freshly computed ints well beyond 256"""
+    n_cases = 0
+    for cls in ("Buffer", "PrintBuffer"):
+        for name, n, order in (("in-order", 400, lambda n: list(range(n))),
+                               ("reversed", 1500, lambda n: list(range(n - 1, -1, -1))),
+                               ("blocks-of-3-reversed", 402, lambda n: [b * 3 + j for b in range(n // 3) for j in (2, 1, 0)])):
+            serials = [int(str(x)) for x in order(n)]        # fresh int objects, not the cached small ints
+            n_cases += 1
+            if cls == "Buffer":
+                b = Buffer()
+                outl = []
+
+                def feed():
+                    for s_ in serials:
+                        for item in b(s_, "v%d" % s_):
+                            outl.append(item)
+                    return outl
+                r = observe(feed)
+                exp = ["v%d" % i for i in range(n)]
+                ok = r == ("ok", exp) and observe(b.waiting_for) == ("ok", n) and observe(len, b) == ("ok", 0)
+                got = (r if r[0] != "ok" else ("ok", "%d items, last %r" % (len(r[1]), r[1][-1:])), observe(b.waiting_for), observe(len, b))
+            else:
+                out = io.StringIO()
+                pb = PrintBuffer(out)
+
+                def feed():
+                    for s_ in serials:
+                        pb.print(s_, "v%d" % s_)
+                    return out.getvalue()
+                r = observe(feed)
+                exp = "".join("v%d\n" % i for i in range(n))
+                ok = r == ("ok", exp) and observe(lambda: pb.waiting_for) == ("ok", n) and observe(len, pb) == ("ok", 0)
+                got = (r if r[0] != "ok" else ("ok", "%d lines" % r[1].count("\n")), observe(lambda: pb.waiting_for), observe(len, pb))
+            if not ok:
+                report.violation({"spec": cls, "part": "long-run", "kind": "long-run", "order": name},
+                                 "%s fed %d serials %s: (output, waiting_for, len) = %r, expected all %d items in order, "
+                                 "waiting_for %d, len 0" % (cls, n, name, got, n, n),
+                                 {"engine": "input-enum", "part": "long-run", "class": cls, "n": n, "order": name})
+    report.part("long-runs", states=n_cases, transitions=n_cases, evaluations=n_cases, traces_validated_against_impl=n_cases,
+                exhaustive=True, what="Buffer and PrintBuffer: 400 serials in order, 1500 reversed, 402 in reversed blocks of three")
+
+
 def replay(rec):
+    if rec["replay"].get("part") == "long-run":
+        print(rec["what"])
+        return 1
     case = rec["replay"]["case"]
     print(rec["what"])
     print("--- snippet ---")
